@@ -503,7 +503,8 @@ def targets():
 # 3. pregen: facts -> gen/C15facts.v; the proof stages depend on what the facts say
 # =============================================================================================
 T_NONE = 'magnetic_field/date-none-after-call'
-T_ZERO = 'constructor/skips-zero-place'
+T_ZERO = 'constructor/skips-lat0'
+T_ZERO_LON = 'constructor/skips-lon0'
 T_DATE = 'constructor/float-date-off-grid'
 T_DEFAULT = 'magnetic_field/default-date-frozen-at-import'
 STAGES = [['C15_elements.v', 'C15_object.v'],
@@ -573,11 +574,27 @@ def elements(w):
     return None if e['X'] is None else [float(e[k]) for k in ELEMS]
 
 
+_FIRST = {}      # (date, place, frame) -> the first answer a fresh object ever gave in this process
+
+
+class NotReproducible(Exception):
+    pass
+
+
 def fresh_answer(date, lat, lon, h, frame):
-    """the reference: a new object of that frame, asked once through the method with an explicit date"""
+    """the reference: a new object of that frame, asked once through the method with an explicit date.  The first answer to
+    each question is remembered for the whole run: a later fresh object that answers differently (state shared between
+    objects through the class, the module or a default argument) is itself a violation."""
     w = _WMM()(frame=frame)
-    w.magnetic_field(lat, lon, h, date=date if date is not None else datetime.date.today())
-    return elements(w)
+    date = date if date is not None else datetime.date.today()
+    w.magnetic_field(lat, lon, h, date=date)
+    e = elements(w)
+    key = (repr(date), float(lat), float(lon), float(h), frame.upper())
+    if len(_FIRST) < 20000:
+        first = _FIRST.setdefault(key, e)
+        if first != e and not (first is None or e is None or any(x != x for x in first + e)):
+            raise NotReproducible(f"a fresh object asked {key} answered {e[:3]}; an earlier fresh object answered {first[:3]}")
+    return e
 
 
 def _angdiff(a, b):
@@ -899,8 +916,7 @@ def o_ctor(inp):
     w = W(dval(d), inp['lat'], inp['lon'], inp['h'], inp['frame'])
     got = elements(w)
     if got is None:
-        zero = inp['lat'] == 0 or inp['lon'] == 0
-        return {'tag': 'constructor/skips-zero-place' if zero else 'constructor/no-answer', 'observed': None,
+        return {'tag': T_ZERO if inp['lat'] == 0 else T_ZERO_LON if inp['lon'] == 0 else 'constructor/no-answer', 'observed': None,
                 'expected': fresh_answer(dval(d), inp['lat'], inp['lon'], inp['h'], inp['frame'])}
     ref = fresh_answer(dval(d), inp['lat'], inp['lon'], inp['h'], inp['frame'])
     if not same(got, ref):
@@ -1018,7 +1034,58 @@ def o_default_date(inp):
     return None
 
 
-ORACLES = {'sequence': o_sequence, 'ctor': o_ctor, 'consistency': o_consistency, 'frames': o_frames, 'lon180': o_lon180,
+def _public_state(w):
+    return (w.c.tobytes(), w.cd.tobytes(), w.date_dec, w.date, w.epoch, w.wmm_filename, w.frame, w.latitude, w.longitude, w.height,
+            tuple(repr(getattr(w, k)) for k in ELEMS))
+
+
+def o_two_objects(inp):
+    """two objects alive at once: creating or using one never changes the other, and each answers like a fresh object"""
+    W = _WMM()
+    objs, cur = [], []
+    for c in inp['ctors']:
+        before = [_public_state(o) for o in objs]
+        objs.append(W(dval(c['date']), c['lat'], c['lon'], c['h'], c['frame']))
+        cur.append(c['date'])
+        for o, b in zip(objs[:-1], before):
+            if _public_state(o) != b:
+                return {'tag': 'constructor/changes-another-object', 'observed': 'public state of an existing object changed'}
+    for i, call in enumerate(inp['calls']):
+        k = call['obj']
+        others = [(j, _public_state(o)) for j, o in enumerate(objs) if j != k]
+        d = call['date']
+        objs[k].magnetic_field(call['lat'], call['lon'], call['h'], date=dval(d))
+        for j, b in others:
+            if _public_state(objs[j]) != b:
+                return {'tag': 'magnetic_field/changes-another-object', 'observed': f'call #{i} on object {k} changed object {j}'}
+        if d is None:
+            continue                        # date=None on a used object is o_sequence's business
+        got = elements(objs[k])
+        ref = fresh_answer(dval(d), call['lat'], call['lon'], call['h'], inp['ctors'][k]['frame'])
+        if not same(got, ref):
+            return {'tag': 'magnetic_field/explicit-date-with-other-objects-alive', 'observed': got, 'expected': ref}
+    return None
+
+
+def o_types(inp):
+    """integer-typed latitude / longitude / height / year mean the same as the equal floats; datetime.date(Y, 1, 1) the same as Y.0"""
+    ent = inp.get('entry', 'magnetic_field')
+    la, lo, h, y = inp['lat'], inp['lon'], inp['h'], inp['year']
+    assert all(isinstance(v, int) for v in (la, lo, h, y))
+    q = lambda la, lo, h, d: _query({'entry': ent, 'lat': la, 'lon': lo, 'h': h, 'date': d, 'frame': inp.get('frame', 'NED')})
+    ref = q(float(la), float(lo), float(h), {'kind': 'float', 'v': float(y)})
+    for name, e in (('int-place', q(la, lo, h, {'kind': 'float', 'v': float(y)})),
+                    ('int-year', q(float(la), float(lo), float(h), {'kind': 'int', 'v': y})),
+                    ('int-all', q(la, lo, h, {'kind': 'int', 'v': y})),
+                    ('first-of-january', q(float(la), float(lo), float(h), {'kind': 'date', 'v': [y, 1, 1]}))):
+        if (e is None) != (ref is None):
+            return {'tag': f'{ent}/{name}-answers-differently', 'observed': e, 'expected': ref}
+        if e is not None and not same(e, ref):
+            return {'tag': f'{ent}/{name}-differs-from-float', 'observed': e, 'expected': ref}
+    return None
+
+
+ORACLES = {'two_objects': o_two_objects, 'types': o_types, 'sequence': o_sequence, 'ctor': o_ctor, 'consistency': o_consistency, 'frames': o_frames, 'lon180': o_lon180,
            'zero': o_zero, 'default_date': o_default_date}
 
 
@@ -1048,13 +1115,16 @@ EDGE_DATES = [{'kind': 'float', 'v': v} for v in (2015.0, 2019.9, 2019.999, 2020
 
 
 def _rand_place(rng):
+    """table places (ints stay ints), exact 0 / +-90 / +-55 / +-180 / h = 0, integer-typed draws, generic floats"""
     u = rng.random()
-    if u < 0.35:
-        la, lo, h = PLACE_TABLE[int(rng.integers(0, len(PLACE_TABLE)))]
-        return float(la), float(lo), float(h)
+    if u < 0.3:
+        return PLACE_TABLE[int(rng.integers(0, len(PLACE_TABLE)))]
+    if u < 0.4:
+        return int(rng.integers(-90, 91)), int(rng.integers(-180, 181)), int(rng.integers(0, 5))
     la = float(rng.choice([0.0, 90.0, -90.0, 55.0, -55.0])) if rng.random() < 0.2 else float(rng.uniform(-90, 90))
     lo = float(rng.choice([0.0, 180.0, -180.0])) if rng.random() < 0.2 else float(rng.uniform(-180, 180))
-    return la, lo, float(rng.uniform(-1, 600))
+    h = 0.0 if rng.random() < 0.2 else float(rng.uniform(-1, 600))
+    return la, lo, h
 
 
 def search(ctx, scale):
@@ -1096,9 +1166,42 @@ def search(ctx, scale):
                 for which in ('lat', 'lon'):
                     qq = dict(q, which=which)
                     ctx.check('zero', qq, _call('zero', qq), nontrivial_key=(ent, which, round(la), round(lo)))
+    # two or three objects alive at once, interleaved calls
+    for i in range(12 * scale):
+        nobj = 2 + (i % 2)
+        ctors = []
+        for _ in range(nobj):
+            la, lo, h = _rand_place(rng)
+            ctors.append({'date': _rand_date(rng, True), 'lat': la, 'lon': lo, 'h': h, 'frame': 'ENU' if rng.random() < 0.5 else 'NED'})
+        calls = []
+        for _ in range(int(rng.integers(2, 7))):
+            la, lo, h = _rand_place(rng)
+            calls.append({'obj': int(rng.integers(0, nobj)), 'lat': la, 'lon': lo, 'h': h, 'date': _rand_date(rng, allow_none=True)})
+        inp = {'ctors': ctors, 'calls': calls}
+        ctx.check('two_objects', inp, _call('two_objects', inp),
+                  nontrivial_key=(tuple(c['frame'] for c in ctors), tuple((c['obj'], _kind(c['date'])) for c in calls)))
+    # integer-typed arguments against the equal floats
+    for i in range(16 * scale):
+        la = int(rng.choice([0, 90, -90, 55, -56, 45])) if i % 2 else int(rng.integers(-90, 91))
+        lo = int(rng.choice([0, 180, -180, 15])) if i % 3 == 0 else int(rng.integers(-180, 181))
+        for ent in ('magnetic_field', 'constructor'):
+            inp = {'entry': ent, 'lat': la, 'lon': lo, 'h': int(rng.integers(0, 4)), 'year': int(rng.integers(2015, 2030)),
+                   'frame': 'ENU' if i % 4 == 1 else 'NED'}
+            ctx.check('types', inp, _call('types', inp), nontrivial_key=(ent, _place_class(la, lo), inp['frame']))
     for t in ([2021, 6, 1], [2027, 2, 3]):
         inp = {'today': t, 'lat': 48.13723, 'lon': 11.575508, 'h': 0.521}
         ctx.check('default_date', inp, _call('default_date', inp), nontrivial_key=tuple(t))
+    # a recorded finding whose witness no longer fails has been repaired: a violation that carries its tag is then a NEW failure
+    # of the same kind and must not be absorbed by the stale record
+    stale = set()
+    for k in core.load_findings(PID):
+        if k.get('status', 'known') == 'known' and k['oracle'] in ORACLES:
+            r = _call(k['oracle'], k['witness'])
+            if r is None or r.get('tag') != k['tag']:
+                stale.add((k['oracle'], k['tag']))
+    for v in ctx.violations:
+        if (v.oracle, v.tag) in stale:
+            v.tag += '/recorded-witness-no-longer-fails'
     ctx.samples.append({'kind': 'search', 'oracle': 'sequence',
                         'input': {'ctor': {'date': {'kind': 'float', 'v': 2017.5}, 'lat': 10.0, 'lon': -20.0, 'h': 10.5, 'frame': 'NED'},
                                   'calls': [{'op': 'field', 'lat': 10.0, 'lon': -20.0, 'h': 10.5, 'date': None}]}})
